@@ -113,6 +113,39 @@ fn check_prefix(base: &Base, prefix: &[u8], cached: bool) -> std::result::Result
     }
 }
 
+/// a file laid out like a linearized one: the section `startxref` names stands right after the header and its /Prev leads
+/// to the main section further down (distance < 1019, so one of the enumerated prefix lengths makes the absolute position
+/// of the first section equal to the header-relative value of /Prev; `pad` varies that distance)
+pub fn linearized_layout_doc(pad: usize) -> Vec<u8> {
+    let mut out: Vec<u8> = b"%PDF-1.4\n".to_vec();
+    let first = out.len();
+    let first_section = |prev: usize| format!("xref\n0 1\n0000000000 65535 f \ntrailer\n<< /Size 5 /Root 1 0 R /Prev {:05} >>\n", prev);
+    out.extend_from_slice(first_section(0).as_bytes());
+    out.extend(std::iter::repeat(b' ').take(pad));
+    out.push(b'\n');
+    let objects = [
+        "1 0 obj\n<< /Type /Catalog /Pages 2 0 R >>\nendobj\n",
+        "2 0 obj\n<< /Type /Pages /Kids [3 0 R] /Count 1 >>\nendobj\n",
+        "3 0 obj\n<< /Type /Page /Parent 2 0 R /MediaBox [0 0 200 200] /Contents 4 0 R /Resources << >> >>\nendobj\n",
+        "4 0 obj\n<< /Length 3 >>\nstream\nq Q\nendstream\nendobj\n",
+    ];
+    let mut offsets = vec![];
+    for o in objects.iter() {
+        offsets.push(out.len());
+        out.extend_from_slice(o.as_bytes());
+    }
+    let main = out.len();
+    out.extend_from_slice(b"xref\n0 5\n0000000000 65535 f \n");
+    for o in &offsets {
+        out.extend_from_slice(format!("{:010} 00000 n \n", o).as_bytes());
+    }
+    out.extend_from_slice(b"trailer\n<< /Size 5 /Root 1 0 R >>\n");
+    out.extend_from_slice(format!("startxref\n{}\n%%EOF\n", first).as_bytes());
+    let real = first_section(main);
+    out[first..first + real.len()].copy_from_slice(real.as_bytes());
+    out
+}
+
 pub fn run(tier: Tier, _seed: u64, tally: &mut Tally) -> CheckMeta {
     let mut bases: Vec<Base> = vec![];
     for (name, opts) in [("gen:classic", DocOpts::CLASSIC), ("gen:xrefstream+objstm", DocOpts::STREAM), ("gen:prev-chain", DocOpts::CHAIN), ("gen:prev-chain-streams", DocOpts::CHAIN_STREAM)] {
@@ -139,6 +172,9 @@ pub fn run(tier: Tier, _seed: u64, tally: &mut Tally) -> CheckMeta {
             fb.finish_table(&[("Root", Val::r(1))], Split::Runs);
         }
         bases.push(Base { name: format!("gen:entry-at-offset-0-{}", if stream { "stream" } else { "table" }), bytes: fb.bytes(), pw: vec![], reference: Err(String::new()), reference_cached: Err(String::new()) });
+    }
+    for pad in [0usize, 300] {
+        bases.push(Base { name: format!("gen:linearized-layout-pad{}", pad), bytes: linearized_layout_doc(pad), pw: vec![], reference: Err(String::new()), reference_cached: Err(String::new()) });
     }
     if let Some(enc) = crate::props::c06::encrypted_rich_doc() {
         bases.push(Base { name: "gen:encrypted-rc4".into(), bytes: enc, pw: b"user".to_vec(), reference: Err(String::new()), reference_cached: Err(String::new()) });
@@ -236,7 +272,7 @@ pub fn run(tier: Tier, _seed: u64, tally: &mut Tally) -> CheckMeta {
     CheckMeta {
         prop: "C17",
         level: "model_checking",
-        rule: format!("{} generated files (classic, xref stream + object stream, /Prev chain in both formats, small, RC4-encrypted) x every prefix length 1..=1019 x {} fillers, and all 256 byte values at lengths 1/7/512/1019; {} corpus files x fillers x {}; each prefixed file is opened and walked (every object, stream data, pages, fonts, trees, trailer, scan) and the observation list is compared line by line with the unprefixed file's (differential oracle). Distinct by (file, filler, length, configuration).", n_generated, FILLERS.len(), bases.len() - n_generated, if tier.thorough() { "every length" } else { "14 boundary lengths" }),
+        rule: format!("{} generated files (classic, xref stream + object stream, /Prev chain in both formats, small, linearized layout - first section after the header with /Prev further down - at two distances, entries at offset 0, RC4-encrypted) x every prefix length 1..=1019 x {} fillers, and all 256 byte values at lengths 1/7/512/1019; {} corpus files x fillers x {}; each prefixed file is opened and walked (every object, stream data, pages, fonts, trees, trailer, scan) and the observation list is compared line by line with the unprefixed file's (differential oracle). Distinct by (file, filler, length, configuration).", n_generated, FILLERS.len(), bases.len() - n_generated, if tier.thorough() { "every length" } else { "14 boundary lengths" }),
         assumptions: vec!["prefixes never contain the header marker %PDF-".into(), "offset.pdf (already prefixed) is excluded".into()],
         exhaustive: true,
         bounds: json!({"max_prefix": 1019}),
@@ -251,6 +287,8 @@ pub fn replay(case: &Value, tally: &mut Tally) {
         "gen:prev-chain" => rich_doc(b"", DocOpts::CHAIN),
         "gen:prev-chain-streams" => rich_doc(b"", DocOpts::CHAIN_STREAM),
         "gen:small" => small_doc(b""),
+        "gen:linearized-layout-pad0" => linearized_layout_doc(0),
+        "gen:linearized-layout-pad300" => linearized_layout_doc(300),
         "gen:encrypted-rc4" => crate::props::c06::encrypted_rich_doc().unwrap_or_default(),
         f => std::fs::read(format!("{}/files/{}", repo_dir(), f)).unwrap_or_default(),
     };
